@@ -1,62 +1,218 @@
-(** C23 property theorems.  Model.v has two layers: [scan] (what the parser has made of all the bytes
-    received so far; byte level, tied to the code by the correspondence run on every truncation
-    point x random segmentation) and the event machine [run] (allHeadersReceived / body decoder
-    callbacks / _giveUp / connectionLost / Response delivery states).
+(** C23 property theorems: the HTTP client completes every request exactly once with the exact body.
 
-    FULL statements (properties.jsonl C23): for any response bytes, any segmentation and connection
-    loss at any byte position, (a) the request Deferred fires exactly once, with the response iff
-    its headers are complete; (b) the body delivered equals the body bytes received; (c) the
-    consumer's connectionLost is called exactly once with ResponseDone / PotentialDataLoss /
-    a failure.  What is PROVED below is each statement for EVERY history of parser events and
-    deliverBody calls of the event machine (any order, any length); the step from bytes and
-    segmentations to parser events ([scan], [Run.ops]) is validated by the correspondence run only.
-    Hence the names `_partial`. *)
+    Model.v: [pstep]/[parse] = HTTPClientParser with its line receiver and body decoders as a framed
+    receiver (Lib/Seg.v), fed delivery by delivery ([pfeed]); [step]/[run] = the event machine
+    (allHeadersReceived, decoder callbacks, _giveUp, connectionLost, Response delivery states) with
+    ghost logs; [session hm cs1 cs2 t lost] = the events of a connection on which the bytes arrive
+    as the deliveries [cs1] then [cs2], deliverBody is called at time [t] (never / between the two
+    groups, or from the Deferred's callback if the response is not there yet / after the loss)
+    and the connection is finally lost or not.  [whole_events hm received] is the parser's reading
+    of the received bytes taken as one piece.
+
+    Every theorem quantifies over ALL byte strings (hence every response, well-formed or not, and
+    every truncation point: [received] is whatever arrived), ALL segmentations, ALL four deliverBody
+    timings, lost or not, HEAD or not. *)
 From Coq Require Import List NArith Bool.
-From TwLib Require Import HttpClientBytes.
-From C23 Require Import Model Proofs.
+From TwLib Require Import HttpClientBytes Seg.
+From C23 Require Import Model Proofs ParserFacts SessionFacts ResponseSpec ReadBack Protocol ProtocolFacts.
 Import ListNotations.
 
-(** (a) at most one firing in every history; exactly one once the connection was lost or the
-    parser gave up; it is the response exactly when the headers were completed before that *)
-Theorem request_deferred_fires_once_partial : forall evs,
+(** the parser emits the same events and ends in the same state however the stream is cut *)
+Theorem parser_is_segmentation_invariant : forall hm cs s,
+  concat cs = s -> Seg.run (pfeed hm) pinit cs = parse hm MStatus s.
+Proof. exact parse_all_chunkings. Qed.
+Print Assumptions parser_is_segmentation_invariant.
+
+(** what it has emitted for a prefix (= at a truncation point) is a prefix of what it emits for
+    the whole stream: events never change retroactively *)
+Theorem parser_reading_is_prefix_monotone : forall hm a b,
+  exists more, whole_events hm (a ++ b) = whole_events hm a ++ more.
+Proof. exact whole_events_monotone. Qed.
+Print Assumptions parser_reading_is_prefix_monotone.
+
+(** its reading has one of three shapes: nothing yet / failed before a response / a response
+    followed by body bytes and at most one terminal event *)
+Theorem parser_reading_shape : forall hm received,
+  let W := whole_events hm received in
+  W = [] \/ W = [PBad]
+  \/ exists c f ds tl, W = PHead c f :: map (fun x => PData [x]) ds ++ tail_events tl
+                       /\ (immediate f = true -> ds = [] /\ tl = TOpen).
+Proof. exact whole_events_shaped. Qed.
+Print Assumptions parser_reading_shape.
+
+(** THE outcome of a session, for every stream / segmentation / truncation / timing: it depends on
+    the bytes received only through [whole_events] (not on how they were cut, nor on when
+    deliverBody was called) *)
+Theorem session_outcome_for_every_stream_segmentation_and_truncation : forall hm cs1 cs2 t lost,
+  let received := concat (cs1 ++ cs2) in
+  let W := whole_events hm received in
+  let s := run (session hm cs1 cs2 t lost) in
+  m_fired s = expected_fired W (is_nil received) lost
+  /\ m_delivered s = expected_delivered W t
+  /\ m_closed s = expected_closed W t lost.
+Proof. exact session_outcome. Qed.
+Print Assumptions session_outcome_for_every_stream_segmentation_and_truncation.
+
+(** (a) the request Deferred fires at most once, exactly once when the connection is lost; with the
+    response exactly when the parser's reading of the received bytes contains a complete head;
+    otherwise with ResponseFailed, or ResponseNeverReceived when nothing at all arrived *)
+Theorem request_deferred_fires_once : forall hm cs1 cs2 t lost,
+  let received := concat (cs1 ++ cs2) in
+  let W := whole_events hm received in
+  let s := run (session hm cs1 cs2 t lost) in
+  (length (m_fired s) <= 1)%nat
+  /\ (lost = true -> length (m_fired s) = 1%nat)
+  /\ (forall c, m_fired s = [FResponse c] <-> exists f, head_of W = Some (c, f))
+  /\ (head_of W = None -> lost = true -> m_fired s = [if is_nil received then FNever else FFailed]).
+Proof. exact fires_once_bytes. Qed.
+Print Assumptions request_deferred_fires_once.
+
+(** (b) whenever deliverBody is called on a response, the consumer receives exactly the body bytes
+    decoded from what was received, in order, whatever the segmentation and the timing *)
+Theorem body_delivered_equals_body_received : forall hm cs1 cs2 t lost,
+  let W := whole_events hm (concat (cs1 ++ cs2)) in
+  m_delivered (run (session hm cs1 cs2 t lost)) =
+  match head_of W with
+  | Some _ => if asked_for t then body_of W else []
+  | None => []
+  end.
+Proof. exact body_exact_bytes. Qed.
+Print Assumptions body_delivered_equals_body_received.
+
+(** (c) the consumer's connectionLost is called at most once; once deliverBody was called on a
+    response and the body has ended (decoder finished, no body expected, malformed, or connection
+    lost) exactly once, with ResponseDone if no body was expected or the decoder finished,
+    PotentialDataLoss for a close-delimited body, ResponseFailed for a truncated or malformed one *)
+Theorem consumer_connectionLost_once_with_classified_reason : forall hm cs1 cs2 t lost,
+  let W := whole_events hm (concat (cs1 ++ cs2)) in
+  let s := run (session hm cs1 cs2 t lost) in
+  (length (m_closed s) <= 1)%nat
+  /\ m_closed s =
+     match head_of W with
+     | Some (_, f) =>
+         if asked_for t && (lost || finished W || failed W || immediate f)
+         then [match f with
+               | FClose => RPotentialDataLoss
+               | FNoBody => RDone
+               | FLen n => if N.eqb n 0 || finished W then RDone else RFailed
+               | FChunked => if finished W then RDone else RFailed
+               end]
+         else []
+     | None => []
+     end.
+Proof. exact closed_once_bytes. Qed.
+Print Assumptions consumer_connectionLost_once_with_classified_reason.
+
+(** link to the response grammar (ResponseSpec.v, independent of the parser): ANY well-formed
+    response - interim 1xx responses, any status line, any header lines other than the framing
+    ones, body absent / Content-Length / chunked (any chunking) / close-delimited - followed by
+    ANY bytes is read as exactly the intended events ... *)
+Theorem well_formed_response_read_back : forall hm r extra,
+  wf_response hm r -> whole_events hm (serialize r ++ extra) = expected_reading r extra.
+Proof. exact response_read_back. Qed.
+Print Assumptions well_formed_response_read_back.
+
+(** ... every truncation of it as a prefix of them (head not yet / head and a prefix of the body /
+    everything) ... *)
+Theorem truncated_response_read_as_prefix : forall hm r extra k,
+  wf_response hm r ->
+  exists more, expected_reading r extra = whole_events hm (firstn k (serialize r ++ extra)) ++ more.
+Proof. exact truncated_response_reading. Qed.
+Print Assumptions truncated_response_read_as_prefix.
+
+(** ... so that a complete response, cut into deliveries in ANY way, with deliverBody called at
+    ANY time, followed by the loss of the connection: the Deferred fires once with the response,
+    the consumer gets exactly the body (for a close-delimited body: everything that followed the
+    head) and is closed once with ResponseDone (PotentialDataLoss when close-delimited) *)
+Theorem complete_response_delivered_exactly : forall hm r extra cs1 cs2 t,
+  wf_response hm r -> concat (cs1 ++ cs2) = serialize r ++ extra ->
+  let s := run (session hm cs1 cs2 t true) in
+  m_fired s = [FResponse (r_code r)]
+  /\ m_delivered s = (if asked_for t
+                     then match r_body r with
+                          | BNone => []
+                          | BLen body => body
+                          | BChunked cs => concat cs
+                          | BClose body => body ++ extra
+                          end
+                     else [])
+  /\ m_closed s = (if asked_for t
+                  then [match r_body r with BClose _ => RPotentialDataLoss | _ => RDone end]
+                  else []).
+Proof. exact complete_response_session. Qed.
+Print Assumptions complete_response_delivered_exactly.
+
+(** the same three statements for EVERY history of parser events and deliverBody calls of the event
+    machine (any order, any length), not only those a parser can produce *)
+Theorem request_deferred_fires_once_all_histories : forall evs,
   (length (m_fired (run evs)) <= 1)%nat
   /\ ((In PLost evs \/ In PBad evs) -> length (m_fired (run evs)) = 1%nat)
   /\ (m_head (run evs) = true <-> exists c, m_fired (run evs) = [FResponse c]).
 Proof. exact fires_once. Qed.
-Print Assumptions request_deferred_fires_once_partial.
+Print Assumptions request_deferred_fires_once_all_histories.
 
-(** (b) in every history: delivered ++ still buffered = accepted from the decoder; once the consumer
-    has been asked for (deliverBody) or closed, nothing is buffered: delivered = received, in order,
-    nothing lost, nothing duplicated, whenever deliverBody was called *)
-Theorem body_delivered_equals_body_received_partial : forall evs,
+Theorem body_delivered_equals_body_received_all_histories : forall evs,
   let s := run evs in
   m_delivered s ++ m_buf s = m_received s
   /\ (m_closed s <> [] -> m_delivered s = m_received s)
   /\ (m_asked s = true -> m_delivered s = m_received s).
 Proof. exact body_exact. Qed.
-Print Assumptions body_delivered_equals_body_received_partial.
+Print Assumptions body_delivered_equals_body_received_all_histories.
 
-(** (c) in every history the consumer's connectionLost is called at most once, only after
-    deliverBody, exactly once when the response exists, the parser has been disconnected and
-    deliverBody was called; its reason is [reason_of framing finished]: ResponseDone iff no body
-    was expected or the decoder finished, PotentialDataLoss iff the body is close-delimited,
-    ResponseFailed otherwise *)
-Theorem consumer_connectionLost_once_with_classified_reason_partial : forall evs,
+Theorem consumer_connectionLost_once_all_histories : forall evs,
   let s := run evs in
   (length (m_closed s) <= 1)%nat
   /\ (forall r, In r (m_closed s) -> r = reason_of (m_frame s) (m_fin s))
   /\ (m_head s = true -> m_gone s = true -> m_asked s = true -> length (m_closed s) = 1%nat)
   /\ (m_asked s = false -> m_closed s = []).
 Proof. exact closed_once. Qed.
-Print Assumptions consumer_connectionLost_once_with_classified_reason_partial.
+Print Assumptions consumer_connectionLost_once_all_histories.
 
-Theorem reason_classification : forall f fin,
-  reason_of f fin =
-  match f with
-  | FClose => RPotentialDataLoss
-  | FNoBody => RDone
-  | FLen n => if N.eqb n 0 || fin then RDone else RFailed
-  | FChunked => if fin then RDone else RFailed
-  end.
-Proof. exact reason_table. Qed.
-Print Assumptions reason_classification.
+(** * the protocol layer (Protocol.v): request still being transmitted, request generation failing,
+    abort(), cancellation.  [xrun false] / [play false] model the code repaired by
+    fixes/C23-abort-completes-request.patch and fixes/C23-parse-error-while-transmitting.patch,
+    [xrun true] the pinned code. *)
+
+(** in EVERY history of parser events, request-writing events, deliverBody / abort / cancel calls and
+    connection loss, from either initial state, the request Deferred fires at most once ... *)
+Theorem request_fires_at_most_once_in_every_protocol_history : forall evs s0,
+  (s0 = xinit_waiting \/ s0 = xinit_transmitting) ->
+  (length (request_fired (xrun false s0 evs)) <= 1)%nat.
+Proof. exact request_at_most_once. Qed.
+Print Assumptions request_fires_at_most_once_in_every_protocol_history.
+
+(** ... and exactly once as soon as the connection has been lost *)
+Theorem request_fires_exactly_once_after_loss_in_every_protocol_history : forall evs s0,
+  (s0 = xinit_waiting \/ s0 = xinit_transmitting) -> In (XP PLost) evs ->
+  length (request_fired (xrun false s0 evs)) = 1%nat.
+Proof. exact request_exactly_once_after_loss. Qed.
+Print Assumptions request_fires_exactly_once_after_loss_in_every_protocol_history.
+
+(** FULL statement above is FALSE of the pinned code: abort() while the request is being
+    transmitted; a body-less response completing after abort(); a parse error while the request is
+    being transmitted - the connection is lost and the request Deferred has never fired *)
+Theorem request_fires_exactly_once_after_loss_legacy_refuted :
+  (exists s0 evs, (s0 = xinit_waiting \/ s0 = xinit_transmitting) /\ In (XP PLost) evs
+                  /\ length (request_fired (xrun true s0 evs)) <> 1%nat)
+  /\ request_fired (xrun true xinit_transmitting [UAbort; XP PLost]) = []
+  /\ request_fired (xrun true xinit_waiting [UAbort; XP PRecv; XP (PHead 204 FNoBody); XP PLost]) = []
+  /\ request_fired (xrun true xinit_transmitting [XP PRecv; XP PBad; QDone; XP PLost]) = [].
+Proof.
+  exact (conj legacy_refuted
+          (conj (proj1 legacy_abort_while_transmitting)
+             (conj legacy_bodyless_response_while_aborting (proj1 legacy_parse_error_while_transmitting)))).
+Qed.
+Print Assumptions request_fires_exactly_once_after_loss_legacy_refuted.
+
+(** a connection driven by ANY sequence of byte deliveries (parsed incrementally), of the body
+    producer finishing or failing, of deliverBody / abort() / cancel() calls and of the connection
+    loss: at most one firing, exactly one once lost; the consumer is closed at most once and, once
+    asked for, has received exactly what the decoder produced *)
+Theorem connection_completes_request_exactly_once : forall hm transmitting ops,
+  let s := play false hm ops pinit (if transmitting : bool then xinit_transmitting else xinit_waiting) in
+  (length (request_fired s) <= 1)%nat
+  /\ (In OLost ops -> length (request_fired s) = 1%nat)
+  /\ (length (m_closed (x_in s)) <= 1)%nat
+  /\ (m_asked (x_in s) = true -> m_delivered (x_in s) = m_received (x_in s)).
+Proof. exact ProtocolFacts.connection_completes_request_exactly_once. Qed.
+Print Assumptions connection_completes_request_exactly_once.
